@@ -244,6 +244,11 @@ func (r *Report) Finish(levelText string, assumptions []string) int {
 		}
 	}
 
+	if os.Getenv("OFV_LIST") != "" {
+		for _, o := range r.Obs {
+			fmt.Printf("  %s %s at %s: %s%s\n", o.Verdict, o.Key(), o.Pos, o.Note, o.Diag)
+		}
+	}
 	evDir := filepath.Join(root, "evidence")
 	if d := os.Getenv("OFV_EVIDENCE_DIR"); d != "" {
 		evDir = d // scratch runs against variants must not touch the committed evidence
